@@ -25,7 +25,7 @@ CHECKS = {
             "randn must derive from a parameter, PRNGKey(constant) or next_key; loop-carried keys must advance; PRNGKey/next_key must depend on their argument; "
             "the Hutchinson loop has a cap conjunct and a +1 counter. Of unbiasedness only three necessary conditions are decided: probe/estimator conjugation agreement, that "
             "the estimator reads the sign of the offset k (not only abs(k)), and that on every path of the loop body the multiplier of (A @ z) is the probe block z itself or a shift / mask of it. "
-            "The options given to Auto (tolerance, iteration cap, key) reach the estimator it constructs. No function writes a new key into an object passed by its caller. The cap comparison is strict exactly when the counter starts at 0.",
+            "The options given to Auto (tolerance, iteration cap, key) reach the estimator it constructs. No function writes a new key into an object passed by its caller. The cap comparison is strict exactly when the counter starts at 0. A local generator is never created from a seed that may be None.",
             "Statistical unbiasedness, variance and the Rademacher-exactness claim are not decided. Exceptional exits inside a bracket are ignored.", "4/C17"),
     "C18": ("ownership / effect analysis: flow-sensitive origins of every in-place write target, parameter-write and return-alias summaries to a fixpoint over the resolved call graph",
             "Full for non-mutation: every in-place write site in cola/ (update_array on numpy/torch, augmented assignment, subscript/attribute store, out=, mutating methods, "
@@ -40,7 +40,7 @@ CHECKS = {
             "isinstance/issubclass against parametric patterns, identity tests) on every composite with up to 3-4 parts x all 16 raw annotation subsets per part; a claimed annotation "
             "that linear algebra does not allow is reported with the witness operator. Refute-only for output sites: Unitary/Stiefel(...) inside cola/ is refuted when the wrapped "
             "value provably has a caller-controlled column count or holds general eigenvectors, proved when it is a (column selection of a) unitary factor, undecided otherwise. Index "
-            "objects of a Sliced that are materialised as arange(N)[s] must take N from the parent's shape on the same axis. Krylov svd rules take the Gram matrix of the shorter side on every branch (the other one is singular, its back-substituted factor is not orthonormal); index-array equality in the Sliced rule is interpreted for `.all()` and `.any()`.",
+            "objects of a Sliced that are materialised as arange(N)[s] must take N from the parent's shape on the same axis. Krylov svd rules take the Gram matrix of the shorter side on every branch (the other one is singular, its back-substituted factor is not orthonormal); index-array equality in the Sliced rule is interpreted for `.all()` and `.any()`. PSD is not claimed for V diag(f(w)) V^H with f supplied by the caller.",
             "Trusted: oracle `allowed` in sa/annot.py (one line per combinator with its reason); backend provenance table in sa/prov.py (eigh/svd/qr/eig). Numerical orthogonality of "
             "Krylov bases and PSD-ness of user data are not decided.", "4/C05"),
     "C02": ("term rewriting (abstract interpretation of product methods and transpose/adjoint rules into a free algebra over T, C, inv, products, sums, factor families; normal-form comparison)",
@@ -76,7 +76,7 @@ CHECKS = {
     "C11": ("term rewriting / structural comparison of the cholesky and plu rules",
             "Structure-level: Kronecker / BlockDiag rules must rebuild the same composite kind from the factor-wise decompositions in order (multiplicities kept), component i of every "
             "plu rule must play role i, base cases must hand A itself (not a symmetrised or transposed variant) to the backend factorisation and wrap the factors with lower=True / "
-            "True / False, Diagonal|ScalarMul rules return sqrt(A).",
+            "True / False, Diagonal|ScalarMul rules return sqrt(A). cholesky(Diagonal) written on the payload is decided: Diagonal(sqrt(A.diag)) proved, the root of a modified payload refuted.",
             "L L^H = A and P L U = A as numbers and positive-definiteness are not decided; densification is C19.", "4/C11"),
     "C16": ("def-use pairing, sign provenance and term rewriting over the svd rules; pinv rules as in C06",
             "Structural necessary conditions of a valid SVD / pseudo-inverse: U, Sigma and V are permuted / sliced by one common index in every rule; Sigma is non-negative by "
@@ -99,7 +99,7 @@ CHECKS = {
             "concatenates with multiplicities; trace = sum of diag(A, 0, alg) after a squareness check; structural trace rules are compared with the kind's trace identity as scalar terms "
             "(product of traces for Kronecker, sum for Sum, multiplicity-weighted sum for BlockDiag, size-weighted sum for KronSum, c*n for ScalarMul); Auto's options reach the estimator; the Exact/Hutch base case forwards (A, k); Auto constructs Exact on the small-tolerance branch; the blocked probing loop of exact_diag ranges over "
             "every column of the operator in steps of the block it hands to the chunk builder and reads the sign of the offset somewhere; the Auto rule's default tolerance is an "
-            "operator-independent literal not looser than 1e-6.",
+            "operator-independent literal not looser than 1e-6. A rule for an n-ary composite (Product, Sum, Kronecker, ...) that takes its parts by constant index must pin their number (part-coverage; the same obligation is raised for the inverse, determinant, matrix-function, eig, factorisation and svd rules).",
             "The chunk/shift arithmetic inside get_I_chunk_like (sizes not divisible by the block) and the numerical value of the Auto threshold are runtime quantities and "
             "are NOT decided.", "4/C08"),
     "C10": ("provenance dataflow (sort order of spectra) and def-use pairing over the eig rules and their Krylov helpers; decision table of the Auto rule",
@@ -118,7 +118,7 @@ CHECKS = {
             "division guards any degree, products add, sums need equal degrees) additionally decides that the stopping test compares quantities of equal degree (a relative tolerance), "
             "that the returned solution has degree 1 in b, and that the counter is compared with the caller's max_iters itself, not a derived value. The monitored loop runner must hand "
             "the caller's condition through unchanged on every exit of its wrapper (no stopping criterion of its own), and no reciprocal of a division guard below the smallest normal "
-            "float32 is formed (0 * inf for a zero right-hand side in single precision). A literal that a magnitude is compared with to be treated as zero must not exceed the smallest normal single-precision number.",
+            "float32 is formed (0 * inf for a zero right-hand side in single precision). A literal that a magnitude is compared with to be treated as zero must not exceed the smallest normal single-precision number. No `parameter or <number>` default on the CG path (an explicit max_iters=0 stays 0).",
             "Krylov optimality of the iterate, the recurrences themselves and preconditioner independence are numerical and NOT decided (a formula match of the CG recurrences was "
             "rejected: an equivalent reformulation would be a false alarm).", "4/C12"),
     "C14": ("bounded-loop certificate, constructor-argument identity, sign provenance of written entries, sesquilinear-form convention of the Gram-Schmidt step, def-use pairing",
@@ -127,7 +127,7 @@ CHECKS = {
             "coefficient conjugates the basis it is later multiplied with; lanczos_eigs sorts ascending and permutes values and vector columns by the same index; diagonal, off-diagonal "
             "and Q are trimmed to N, N-1, N for one size N, and N counts the steps run (final loop counter minus its initial value; the loop runner's 'iterations' counts "
             "condition evaluations, one more); the work buffers of init_lanczos are typed by the operator's dtype at every call site; every clip / maximum bound inside the "
-            "factorisation loop has the degree of homogeneity (in the scale of A) of the quantity it guards; the loop condition folds to False at an exact breakdown. The stopping test continues while ANY column is above its threshold (polarity of comparison and reduction); no in-place write on a value that may be the operator product or the loop state (products may return their operand); Ritz values are in ascending order by abstract interpretation over spectrum orders, helpers followed.",
+            "factorisation loop has the degree of homogeneity (in the scale of A) of the quantity it guards; the loop condition folds to False at an exact breakdown. The stopping test continues while ANY column is above its threshold (polarity of comparison and reduction); no in-place write on a value that may be the operator product or the loop state (products may return their operand); Ritz values are in ascending order by abstract interpretation over spectrum orders, helpers followed. The diagonal handed to Tridiagonal comes from the factorisation through selections, `.real`, casts and copies only. The relative breakdown test must not compare the first tested entry with itself (open finding).",
             "Orthonormality, the three-term recurrence, early termination and A Q - Q T are numerical and not decided.", "4/C14"),
     "C15": ("bounded-loop certificate, allocation check of the work buffers, sign provenance, dependence of the normalisation floor on the tolerance, projection convention",
             "Thin structural claim: at most min(max_iters, n) steps; H and Q are zero-initialised (never empty) and sized by the requested cap, which is why extra rows/columns stay zero; "
@@ -154,7 +154,7 @@ CHECKS = {
             "documented index form has an arm and the fall-through raises, that no slice(*s.indices(n)) round trip is used, and that every exit of Sliced._matmat/_rmatmat goes through the "
             "scatter/gather pair (a size-guarded shortcut that multiplies the parent by the raw operand is refuted) -- these Sliced obligations are judged on the VALUE the methods return "
             "(SCATTER domain: gather(parent @ scatter(zeros(shape), X, idx), idx'), through helper methods and any naming) --, that index objects of a Sliced are resolved against the "
-            "parent's shape, that no __getitem__ compares two integer indices raw (negative aliases), and that an index of one axis is never reduced modulo / compared with the length of the other.",
+            "parent's shape, that no __getitem__ compares two integer indices raw (negative aliases), and that an index of one axis is never reduced modulo / compared with the length of the other. No method of Sliced indexes an array with both stored index objects in one subscript (paired instead of outer selection); case coverage of __getitem__ is decided by executing its normal form on abstract index forms.",
             "Values for negative / strided / empty slices are delegated to the array library by construction: noted, not proved.", "4/C20"),
 }
 
